@@ -430,6 +430,10 @@ func checkC11(c *Check) {
 	}
 	checkDestroyKillsAndReaps(c, "5/destroy")
 	c.Expect("5/destroy", 10)
+
+	// a cancelled run comes back: the container's handler and its wait goroutine cannot block on each other (C10.9)
+	importObs(c, "C10", "C10.9/no-circular-wait", "6/cancel-returns", nil)
+	c.Expect("6/cancel-returns", 3)
 }
 
 // describeCmdKind renders the constant Cmd field of a cmd literal passed by value.
